@@ -542,6 +542,7 @@ Proof.
     destruct (find (fun b => sb_name b =? n) (subs s)) as [b|]; [|inversion H'; subst; assumption].
     destruct (negb (sb_csr b)); [use_fst H'; apply close_K; assumption|].
     destruct ((0 <? e) && (e <? now s)); inversion H'; subst; [assumption|eapply K_ext; eauto].
+  - inversion H; subst. eapply K_ext; eauto.
 Qed.
 
 Theorem exec_K : forall g ls s os, exec g (init g) ls = Some (s, os) -> K s.
@@ -555,3 +556,38 @@ Proof.
       inversion H; subst. eapply IH; [eassumption|]. eapply step_K; eassumption. }
   intros s os H. eapply G; [eassumption|]. unfold K, init. cbn. repeat split; try lia; discriminate.
 Qed.
+
+(* ---------- periodic position check ---------- *)
+
+(* every invalid position of a client-side subscription costs exactly that subscription *)
+Lemma tick_pos_spec : forall l s,
+  closed s = false -> (forall b, In b l -> sb_server b = false) ->
+  snd (tick_pos s l) = map (fun b => OUnsub (sb_name b) 2500) l /\
+  closed (fst (tick_pos s l)) = false.
+Proof.
+  induction l as [|b r IH]; intros s C Hs; cbn [tick_pos map].
+  - auto.
+  - rewrite C, (Hs b (or_introl eq_refl)).
+    set (s1 := set_subs s (filter (fun x => negb (sb_name x =? sb_name b)) (subs s))).
+    destruct (IH s1 C) as [I1 I2]. { intros x Hx. apply Hs. right; assumption. }
+    destruct (tick_pos s1 r) as [s2 o2]. cbn [fst snd] in *. split; [|assumption]. rewrite I1. reflexivity.
+Qed.
+
+(* a server-side subscription at an invalid position closes the connection (insufficient state) *)
+Lemma tick_pos_server : forall s b r,
+  closed s = false -> sb_server b = true -> tick_pos s (b :: r) = close s 3010.
+Proof. intros s b r C S. cbn [tick_pos]. rewrite C, S. reflexivity. Qed.
+
+(* the check is not repeated before the delay has passed: right after a valid check, and as long
+   as no more than the delay went by since the last one, the subscription is not examined *)
+Lemma pos_not_due : forall g s b, now s - sb_check b <= g_pos_delay g -> pos_invalid g s b = false.
+Proof.
+  intros g s b H. unfold pos_invalid, pos_due.
+  assert (X : (g_pos_delay g <? now s - sb_check b) = false) by (apply N.ltb_ge; exact H).
+  rewrite X, !andb_false_r. reflexivity.
+Qed.
+
+Lemma stamp_checked : forall g s b,
+  pos_due g s b = true -> sb_bad b = false ->
+  In (mkSub (sb_name b) (sb_exp b) (sb_csr b) (sb_server b) (sb_pos b) (now s) (sb_bad b)) (stamp g s [b]).
+Proof. intros g s b D B. cbn [stamp map]. rewrite D, B. cbn. left; reflexivity. Qed.
